@@ -47,17 +47,34 @@ _built = {}
 
 
 def build_harness(race=False, cmd="vreplay"):
-    """go build -tags verif of harness/cmd/<cmd> against /repo's CURRENT working tree."""
+    """go build -tags verif of harness/cmd/<cmd> against the CURRENT working tree of the repository
+    (/repo, or $VERIF_REPO when a seeded change is tried on a scratch worktree: the harness go.mod is
+    then used through -modfile with its replace directive pointed at that tree)."""
     key = cmd + ("-race" if race else "")
     if key in _built:
         return _built[key]
     os.makedirs(BIN, exist_ok=True)
-    shutil.copy(os.path.join(REPO, "go.sum"), os.path.join(HARNESS, "go.sum"))
-    out = os.path.join(BIN, key)
-    argv = ["go", "build", "-tags", "verif"] + (["-race"] if race else []) + ["-o", out, "./cmd/" + cmd]
-    p = subprocess.run(argv, cwd=HARNESS, env=goenv(), capture_output=True, text=True)
+    alt = os.path.realpath(REPO) != "/repo"
+    out = os.path.join(BIN, key + ("-alt%d" % os.getpid() if alt else ""))
+    argv = ["go", "build", "-tags", "verif"] + (["-race"] if race else [])
+    tmpd = None
+    if alt:
+        tmpd = scratch("modfile-")
+        mod = open(os.path.join(HARNESS, "go.mod")).read().replace("=> /repo", "=> " + os.path.realpath(REPO))
+        with open(os.path.join(tmpd, "go.mod"), "w") as f:
+            f.write(mod)
+        shutil.copy(os.path.join(REPO, "go.sum"), os.path.join(tmpd, "go.sum"))
+        argv += ["-modfile", os.path.join(tmpd, "go.mod")]
+    else:
+        shutil.copy(os.path.join(REPO, "go.sum"), os.path.join(HARNESS, "go.sum"))
+    argv += ["-o", out, "./cmd/" + cmd]
+    try:
+        p = subprocess.run(argv, cwd=HARNESS, env=goenv(), capture_output=True, text=True)
+    finally:
+        if tmpd:
+            shutil.rmtree(tmpd, ignore_errors=True)
     if p.returncode != 0:
-        raise Infra("harness build failed (does /repo still compile with -tags verif?):\n" + p.stdout + p.stderr)
+        raise Infra("harness build failed (does the repository still compile with -tags verif?):\n" + p.stdout + p.stderr)
     _built[key] = out
     return out
 
